@@ -10,6 +10,11 @@ struct ref_lp REF[MODEL_MAX_LPS];
 size_t ref_total_events;
 double ref_all_true_ts = -1;
 bool ref_all_true;
+size_t ref_all_true_count; /* events executed when every predicate has held for the first time */
+/* events identical in (timestamp, type, size, payload) but addressed to different LPs are not ordered: a correct executor has
+ * dispatched between lo and hi events when it stops at the event after which every predicate has held */
+size_t ref_stop_lo, ref_stop_hi;
+static struct lp_msg *ref_stop_ev;
 
 static struct topology *g_topo;
 
@@ -647,6 +652,9 @@ void reference_run(void)
 	}
 	ref_all_true = untrue == 0;
 	ref_all_true_ts = untrue == 0 ? 0.0 : -1;
+	ref_all_true_count = 0;
+	ref_stop_ev = NULL;
+	ref_stop_lo = ref_stop_hi = 0;
 
 	while(rq_head < rq_n) {
 		struct lp_msg *m = rq[rq_head++];
@@ -658,6 +666,8 @@ void reference_run(void)
 		uint32_t before = ((struct lp_state *)x->state)->handled;
 		model_dispatch(i, m->dest_t, m->m_type, m->pl, m->pl_size, x->state);
 		ref_total_events++;
+		if(ref_stop_ev && ref_stop_ev != m && !msg_is_before(ref_stop_ev, m))
+			ref_stop_hi++;
 		REF[i].n_effective += ((struct lp_state *)x->state)->handled != before;
 		ref_lp_append(&REF[i], m, model_state_digest(x->state));
 		if(REF[i].first_true == -2 && model_can_end(i, x->state)) {
@@ -667,6 +677,12 @@ void reference_run(void)
 			if(!--untrue && !ref_all_true) {
 				ref_all_true = true;
 				ref_all_true_ts = m->dest_t;
+				ref_all_true_count = ref_total_events;
+				ref_stop_ev = m;
+				ref_stop_lo = 1;
+				for(size_t k = 0; k + 1 < rq_head; k++)
+					ref_stop_lo += msg_is_before(rq[k], m);
+				ref_stop_hi = ref_total_events;
 			}
 		}
 		if(ref_total_events > 200000) {
